@@ -496,7 +496,7 @@ def main(run: Run, audit):
         if rc != 0:
             return [('coq', None, out[-600:])]
         res = []
-        for m in re.finditer(r'\((\d+),\s*\[([^\]]*)\]\)', out.replace('\n', ' ')):
+        for m in re.finditer(r'\(\s*(\d+)\s*,\s*\[([^\]]*)\]\s*\)', out.replace('\n', ' ')):
             res.append((int(m.group(1)), [x.strip() == 'true' for x in m.group(2).split(';')], None))
         return res
     with ThreadPoolExecutor(8) as ex:
